@@ -181,7 +181,7 @@ def run_case(spec, workdir):
         else:
             data = ident
         # memory layout of the map: C-contiguous, Fortran-contiguous (a transposed [lon, lat] grid), a strided window, flipped views
-        lay = ["C", "F", "strided", "C", "flip2"][(si + spec["seed"]) % 5]
+        lay = ["C", "F", "strided", "bigendian", "flip2", "C", "bigendian"][(si + spec["seed"]) % 7]
         if lay == "F":
             data = np.asfortranarray(data)
         elif lay == "strided":
@@ -190,8 +190,12 @@ def run_case(spec, workdir):
             data = big[::2, ::2]
         elif lay == "flip2":
             data = np.ascontiguousarray(data[::-1, ::-1])[::-1, ::-1]
+        elif lay == "bigendian":
+            # a map as it comes out of a FITS file: non-native byte order, writable, owned by the caller
+            data = data.astype(data.dtype.newbyteorder(">"))
+        map_before, dtype_before = np.array(data, dtype=np.int64), data.dtype
         f = fn(data)
-        if si % 2 == 0:
+        if si % 2 == 0 or lay == "bigendian":
             # samplers of the OTHER layouts for a map of the same shape are built (and one of them used) after this one and
             # before it is used: a sampler must not depend on what else exists in the process
             others = [getattr(samplers, v)(data) for v in VARIANTS if v != variant]
@@ -216,6 +220,8 @@ def run_case(spec, workdir):
             # one BIG two-dimensional request (a whole map resampled in one call)
             bl, bb = rng.uniform(-math.pi, 3 * math.pi, (700, 420)), np.arcsin(rng.uniform(-1, 1, (700, 420)))
             inputs.append((bl, bb))
+        if data.dtype != dtype_before or not np.array_equal(np.array(data, dtype=np.int64), map_before):
+            probs.append("%s map %dx%d (%s layout): building samplers changed the caller's map (dtype %s -> %s)" % (variant, ny, nx, lay, dtype_before, data.dtype))
         for (lon, lat) in inputs:
             out = np.asarray(f(lon, lat))
             npts += lon.size
